@@ -978,7 +978,15 @@ func (t *terminal) handleCmdOSC(r escapeReader) bool {
 
 	param2 := []byte{}
 
-	if b == ';' {
+	// Anything but "number ; payload" (or a bare number) is not understood, but
+	// it is still a string running up to BEL or ST: consume it whole.
+	wellFormed := b == ';' || b == 7 || b == 0x9c
+	need := 0 // continuation bytes the UTF-8 character being read still needs
+	if !wellFormed {
+		param2 = append(param2, b)
+		need = utf8Pending(need, b)
+	}
+	if b == ';' || !wellFormed {
 		// skip the ';'
 		for {
 			b, err = r.ReadByte()
@@ -988,7 +996,7 @@ func (t *terminal) handleCmdOSC(r escapeReader) bool {
 				}
 				return false
 			}
-			if b == 7 || b == 0x9c { // BEL , ST
+			if b == 7 || (b == 0x9c && need == 0) { // BEL , ST
 				break
 			}
 			if len(param2) > 0 && param2[len(param2)-1] == 27 && b == '\\' { // ESC \ is also ST
@@ -996,10 +1004,12 @@ func (t *terminal) handleCmdOSC(r escapeReader) bool {
 				break
 			}
 
+			need = utf8Pending(need, b)
 			param2 = append(param2, byte(b))
 		}
-	} else if b != 7 && b != 0x9c { // BEL, ST
-		debugPrintln(debugErrors, "OSC command number not followed by ;, BEL, or ST?", b)
+	}
+	if !wellFormed {
+		debugPrintln(debugErrors, "OSC command number not followed by ;, BEL, or ST?", string(param2))
 		return false
 	}
 
@@ -1043,8 +1053,26 @@ func (t *terminal) handleCmdOSC(r escapeReader) bool {
 	return true
 }
 
+// utf8Pending tracks how many continuation bytes the UTF-8 character being
+// read still needs after b, so that a 0x9c continuation byte inside a string
+// payload (as in "\u271c") is not mistaken for the 8-bit string terminator.
+func utf8Pending(need int, b byte) int {
+	switch {
+	case b&0xc0 == 0x80 && need > 0:
+		return need - 1
+	case b >= 0xc2 && b <= 0xdf:
+		return 1
+	case b >= 0xe0 && b <= 0xef:
+		return 2
+	case b >= 0xf0 && b <= 0xf4:
+		return 3
+	}
+	return 0
+}
+
 func (t *terminal) handleDCS(r escapeReader) bool {
 	prev := byte(0)
+	need := 0
 	var payload []byte
 	for {
 		b, err := r.ReadByte()
@@ -1054,7 +1082,7 @@ func (t *terminal) handleDCS(r escapeReader) bool {
 			}
 			return false
 		}
-		if b == 0x9c {
+		if b == 0x9c && need == 0 {
 			if *debugCmd {
 				debugPrintf(debugCmd, "DCS payload: %q\n", string(payload))
 			}
@@ -1072,6 +1100,7 @@ func (t *terminal) handleDCS(r escapeReader) bool {
 		if *debugCmd {
 			payload = append(payload, b)
 		}
+		need = utf8Pending(need, b)
 		prev = b
 	}
 }
